@@ -162,7 +162,7 @@ def work(ctx, tier):
     n = (1100 if tier == "quick" else 30000) // ctx.nshards
     for k in range(n):
         sc = gen.rand_scenario(rng, p_special=0.12, specials=("abort", "cancel", "kbd", "sysexit", "nested_exh", "nested_open"), p_budget=0.3, p_breaker=0.3, p_handler=0.35, p_abort=0.25,
-                               ncalls=(1, 3), placements=(k % 3 == 0), p_no_sleeper=0.2, p_strategy_objects=0.4, p_via_config=0.3, p_via_attrs=0.25, p_attempt_timeout=0.12)
+                               ncalls=(1, 3), placements=(k % 3 == 0), p_no_sleeper=0.2, p_strategy_objects=0.4, p_via_config=0.3, p_via_attrs=0.25, p_attempt_timeout=0.12, p_empty_table=0.06)
         if k % 7 == 0 and sc["cfg"].get("breaker"):
             sc["cfg"]["no_retry"] = True
         if k % 5 == 0:
